@@ -4,6 +4,7 @@ package c12
 import (
 	"encoding/json"
 	"fmt"
+	"math"
 	"strings"
 	"verif/internal/envrun"
 
@@ -82,6 +83,10 @@ func UniquePool() []Member {
 	add(map[gen.MyKey]any{"a": int64(1), "b": json.Number("2")})
 	add(float32(1.5))
 	add(json.Number("15e-1"))
+	add(json.Number("1e400"))
+	add(json.Number("10e399"))
+	add(json.Number("1e-400"))
+	add(math.Copysign(0, -1)) // the float64 negative zero is the number 0
 	return out
 }
 
